@@ -143,16 +143,18 @@ def run(ctx):
                         b["lb"] = rng.choice([-0.5, 0.25, 3.0, -2.0, 0.0])
                     r["bounds"][nm] = b
             runs.append(r)
-        tasks.append({"fn": "c13.impl_run", "indict": ind, "disable_analytic": da, "runs": runs, "timeout": 900})
-        meta.append((si, runs, []))
+        # chunks of at most 100 runs per worker task (each chunk builds its own integrator): no task runs for more than a few minutes
+        for c0 in range(0, len(runs), 100):
+            tasks.append({"fn": "c13.impl_run", "indict": ind, "disable_analytic": da, "runs": runs[c0:c0 + 100], "timeout": 2400})
+            meta.append((si, runs[c0:c0 + 100], []))
         # the same instance after OTHER systems (sharing variable names, with other initial values) were simulated in the same interpreter
         before = [k for k in range(len(SYSTEMS)) if k != si]
         rng.shuffle(before)
         before = before[: (2 if quick else 3)]
         nb = 8 if quick else 60
-        tasks.append({"fn": "c13.impl_run", "indict": ind, "disable_analytic": da, "runs": runs[:nb], "before": before, "timeout": 1800, "fresh": True})
+        tasks.append({"fn": "c13.impl_run", "indict": ind, "disable_analytic": da, "runs": runs[:nb], "before": before, "timeout": 3000, "fresh": True})
         meta.append((si, runs[:nb], before))
-    res = C.run_tasks(tasks, timeout=1800, stub=True)
+    res = C.run_tasks(tasks, timeout=3000, stub=True)
     coq, info, probe_failures, corr_errors = [], [], [], []
     dist = {"runs": 0, "alias": 0, "precise": 0, "with_upper": 0, "with_lower": 0, "crossed": 0, "errors": 0, "spikes_total": 0, "partial_step_scripts": 0, "systems": [d for _, _, d in SYSTEMS]}
     nontriv = set()
